@@ -107,11 +107,33 @@ func checkMain(args []string) int {
 		return 3
 	}
 	tl := time.Now()
-	p, _, err := gosym.Load(repo, ov, spec.Pkgs)
-	if err != nil {
-		fmt.Println("HARNESS-BROKEN load failed (the tree does not type-check with the harness):", err)
-		writeEvidence(prop, tier, seed, nil, spec, nil, time.Since(t0), 0, []string{"load failed: " + err.Error()}, 0, nil)
-		return 3
+	// A change to the tree may rename or re-type something a harness file uses.  The harness
+	// files that no longer type-check are left out (with everything that depended on them) and
+	// the others still run; the entries lost are reported as NO-VERDICT.
+	dropped := map[string]bool{}
+	var p *gosym.Program
+	for round := 0; ; round++ {
+		p, _, err = gosym.Load(repo, ov, spec.Pkgs)
+		if err == nil {
+			break
+		}
+		var bad []string
+		for f := range ov {
+			if strings.Contains(filepath.Base(f), "zz_verif") && strings.Contains(err.Error(), f+":") {
+				bad = append(bad, f)
+			}
+		}
+		if len(bad) == 0 || round >= 5 {
+			fmt.Println("HARNESS-BROKEN load failed (the tree does not type-check with the harness):", err)
+			writeEvidence(prop, tier, seed, nil, spec, nil, time.Since(t0), 0, []string{"load failed: " + err.Error()}, 0, nil)
+			return 3
+		}
+		sort.Strings(bad)
+		for _, f := range bad {
+			delete(ov, f)
+			dropped[f] = true
+			fmt.Println("HARNESS-PARTIAL: left out", f, "(it does not type-check against this tree)")
+		}
 	}
 	loadTime := time.Since(tl)
 
@@ -122,6 +144,7 @@ func checkMain(args []string) int {
 	knownHits := map[int]int{}
 	exit := 0
 	native := newNativeRunner(repo, outDir, p)
+	native.dropped = dropped
 	defer native.cleanup()
 	validated := 0
 	validationMismatch := 0
@@ -133,6 +156,10 @@ func checkMain(args []string) int {
 		}
 		fn := p.FindFunc(h.Entry)
 		if fn == nil {
+			if len(dropped) > 0 {
+				inconclusive = append(inconclusive, h.Entry+": its harness file does not type-check against this tree")
+				continue
+			}
 			fmt.Println("HARNESS-BROKEN entry not found:", h.Entry)
 			return 3
 		}
